@@ -1,3 +1,723 @@
-// Collection histories (C17) and parallel accessors (C09).  Included into scen::coll.
-#[allow(unused_imports)]
+// Collection histories (C17).  Included into scen::coll.
+//
+// Real walrus collections and a map/vector reference model side by side; the
+// invariants of the property are evaluated after EVERY step:
+//   * a live id resolves to the item it was created for;
+//   * a dead id is refused (panic or None) and the refusal changes nothing;
+//   * a fresh id differs from every id ever issued by that collection;
+//   * iteration yields exactly the live items in creation order;
+//   * adding a present function type returns the existing id.
 use super::walrus;
+use crate::types::*;
+use std::panic::{catch_unwind, AssertUnwindSafe};
+use walrus::{ConstExpr, ElementItems, ElementKind, FunctionBuilder, Module, RawCustomSection, RefType, ValType};
+
+const SIG_POOL: &[(&[ValType], &[ValType])] = &[
+    (&[], &[]),
+    (&[ValType::I32], &[]),
+    (&[ValType::I32], &[ValType::I32]),
+    (&[ValType::I64, ValType::I64], &[ValType::I64]),
+    (&[], &[ValType::F64]),
+    (&[ValType::F32], &[ValType::F32, ValType::F32]),
+];
+
+struct Track<I> {
+    ids: Vec<I>,
+    alive: Vec<bool>,
+    fp: Vec<String>,
+}
+
+impl<I> Default for Track<I> {
+    fn default() -> Self {
+        Track { ids: Vec::new(), alive: Vec::new(), fp: Vec::new() }
+    }
+}
+
+impl<I: Copy + PartialEq> Track<I> {
+    /// register a fresh id; Err if it was ever issued before
+    fn add(&mut self, id: I, fp: String) -> Result<(), String> {
+        if let Some(k) = self.ids.iter().position(|x| *x == id) {
+            return Err(format!("the new id equals id #{} issued earlier (alive={})", k, self.alive[k]));
+        }
+        self.ids.push(id);
+        self.alive.push(true);
+        self.fp.push(fp);
+        Ok(())
+    }
+    fn live_fps(&self) -> Vec<String> {
+        self.fp.iter().zip(self.alive.iter()).filter(|(_, a)| **a).map(|(f, _)| f.clone()).collect()
+    }
+    fn live_ids(&self) -> Vec<I> {
+        self.ids.iter().zip(self.alive.iter()).filter(|(_, a)| **a).map(|(i, _)| *i).collect()
+    }
+    fn hash(&self) -> u64 {
+        let mut h = 0xcbf29ce484222325u64;
+        for (f, a) in self.fp.iter().zip(self.alive.iter()) {
+            h = (h ^ crate::prng::fnv(f.as_bytes()) ^ (*a as u64)).wrapping_mul(0x100000001b3);
+        }
+        h
+    }
+}
+
+#[derive(Clone, PartialEq, Eq, Debug)]
+struct TypeKey {
+    sig: usize,
+    entry: bool,
+}
+
+struct Mod {
+    m: Module,
+    types: Track<walrus::TypeId>,
+    type_keys: Vec<TypeKey>,
+    funcs: Track<walrus::FunctionId>,
+    func_local: Vec<bool>,
+    globals: Track<walrus::GlobalId>,
+    memories: Track<walrus::MemoryId>,
+    tables: Track<walrus::TableId>,
+    data: Track<walrus::DataId>,
+    elements: Track<walrus::ElementId>,
+    exports: Track<walrus::ExportId>,
+    imports: Track<walrus::ImportId>,
+    locals: Track<walrus::LocalId>,
+    customs: Track<walrus::UntypedCustomSectionId>,
+    counter: u32,
+}
+
+fn type_fp(sig: usize, entry: bool) -> String {
+    let (p, r) = SIG_POOL[sig];
+    if entry {
+        format!("{:?}->{:?}", &[] as &[ValType], r)
+    } else {
+        format!("{:?}->{:?}", p, r)
+    }
+}
+
+fn entry_results_equal(a: usize, b: usize) -> bool {
+    SIG_POOL[a].1 == SIG_POOL[b].1
+}
+
+/// Ok(v) if the call returned, Err(()) if it panicked (= explicit refusal).
+fn refused<T>(f: impl FnOnce() -> T) -> Result<T, ()> {
+    catch_unwind(AssertUnwindSafe(f)).map_err(|_| ())
+}
+
+struct Fail {
+    oracle: &'static str,
+    detail: String,
+}
+
+type R = Result<(), Fail>;
+
+fn fail(oracle: &'static str, detail: String) -> R {
+    Err(Fail { oracle, detail })
+}
+
+impl Mod {
+    fn new() -> Mod {
+        Mod {
+            m: Module::default(),
+            types: Track::default(),
+            type_keys: Vec::new(),
+            funcs: Track::default(),
+            func_local: Vec::new(),
+            globals: Track::default(),
+            memories: Track::default(),
+            tables: Track::default(),
+            data: Track::default(),
+            elements: Track::default(),
+            exports: Track::default(),
+            imports: Track::default(),
+            locals: Track::default(),
+            customs: Track::default(),
+            counter: 0,
+        }
+    }
+
+    fn next(&mut self) -> u32 {
+        self.counter += 1;
+        self.counter
+    }
+
+    // ---- types -----------------------------------------------------------
+
+    fn live_type_with(&self, key: &TypeKey) -> Option<usize> {
+        self.type_keys.iter().enumerate().position(|(k, t)| {
+            self.types.alive[k]
+                && t.entry == key.entry
+                && if key.entry { entry_results_equal(t.sig, key.sig) } else { SIG_POOL[t.sig] == SIG_POOL[key.sig] }
+        })
+    }
+
+    /// the model's bookkeeping for "a type with this key was requested and walrus answered `id`"
+    fn note_type(&mut self, key: TypeKey, id: walrus::TypeId, counters: &mut Vec<(String, u64)>) -> R {
+        match self.live_type_with(&key) {
+            Some(k) => {
+                bump(counters, "type_dedup_hit");
+                if self.types.ids[k] != id {
+                    return fail("type_add_returns_existing", format!("adding a present signature ({}) returned a different id than the live one (#{})", type_fp(key.sig, key.entry), k));
+                }
+                Ok(())
+            }
+            None => {
+                if self.type_keys.iter().enumerate().any(|(k, t)| !self.types.alive[k] && *t == key) {
+                    bump(counters, "type_readded_after_delete");
+                }
+                let fp = type_fp(key.sig, key.entry);
+                if let Err(e) = self.types.add(id, fp) {
+                    return fail("id_never_reused", format!("types: {}", e));
+                }
+                self.type_keys.push(key);
+                Ok(())
+            }
+        }
+    }
+
+    /// after FunctionBuilder::new the entry type's id is not returned to the caller:
+    /// read it off the iteration (it must be the newest live type if it was created)
+    fn note_entry_type(&mut self, sig: usize, counters: &mut Vec<(String, u64)>) -> R {
+        let key = TypeKey { sig, entry: true };
+        if self.live_type_with(&key).is_some() {
+            bump(counters, "type_dedup_hit");
+            return Ok(());
+        }
+        let seen: Vec<walrus::TypeId> = self.m.types.iter().map(|t| t.id()).collect();
+        let known = self.types.live_ids();
+        let fresh: Vec<walrus::TypeId> = seen.iter().filter(|i| !known.contains(i)).cloned().collect();
+        if fresh.len() != 1 {
+            return fail("iter_is_live_in_creation_order", format!("types: expected exactly one new (entry) type after FunctionBuilder::new, iteration shows {}", fresh.len()));
+        }
+        self.note_type(key, fresh[0], counters)
+    }
+
+    fn check_types(&self) -> R {
+        let got: Vec<(walrus::TypeId, String)> = self.m.types.iter().map(|t| (t.id(), format!("{:?}->{:?}", t.params(), t.results()))).collect();
+        let want_ids = self.types.live_ids();
+        let want_fps = self.types.live_fps();
+        if got.iter().map(|g| g.0).collect::<Vec<_>>() != want_ids || got.iter().map(|g| g.1.clone()).collect::<Vec<_>>() != want_fps {
+            return fail("iter_is_live_in_creation_order", format!("types: iteration yields {} items {:?}, the model has {} live {:?}", got.len(), got.iter().map(|g| &g.1).collect::<Vec<_>>(), want_ids.len(), want_fps));
+        }
+        for (k, id) in self.types.ids.iter().enumerate() {
+            if self.types.alive[k] {
+                let t = self.m.types.get(*id);
+                let fp = format!("{:?}->{:?}", t.params(), t.results());
+                if fp != self.types.fp[k] || t.id() != *id {
+                    return fail("live_id_resolves_to_its_item", format!("types: id #{} resolves to {} but was created for {}", k, fp, self.types.fp[k]));
+                }
+            }
+        }
+        Ok(())
+    }
+}
+
+fn bump(c: &mut Vec<(String, u64)>, k: &str) {
+    if let Some(e) = c.iter_mut().find(|(n, _)| n == k) {
+        e.1 += 1;
+    } else {
+        c.push((k.to_string(), 1));
+    }
+}
+
+/// Generic per-collection check: iteration == live model in order; every live id resolves to its own item.
+macro_rules! check_coll {
+    ($self:ident, $name:expr, $track:ident, $iter:expr, $get:expr) => {{
+        let got: Vec<(_, String)> = $iter;
+        let want_ids = $self.$track.live_ids();
+        let want_fps = $self.$track.live_fps();
+        if got.iter().map(|g| g.0).collect::<Vec<_>>() != want_ids || got.iter().map(|g| g.1.clone()).collect::<Vec<_>>() != want_fps {
+            return fail(
+                "iter_is_live_in_creation_order",
+                format!("{}: iteration yields {:?}, the model's live items in creation order are {:?}", $name, got.iter().map(|g| g.1.clone()).collect::<Vec<_>>(), want_fps),
+            );
+        }
+        for (k, id) in $self.$track.ids.iter().enumerate() {
+            if $self.$track.alive[k] {
+                let fp: String = ($get)(*id);
+                if fp != $self.$track.fp[k] {
+                    return fail("live_id_resolves_to_its_item", format!("{}: id #{} resolves to {:?} but was created for {:?}", $name, k, fp, $self.$track.fp[k]));
+                }
+            }
+        }
+    }};
+}
+
+impl Mod {
+    fn check_all(&self) -> R {
+        self.check_types()?;
+        let m = &self.m;
+        check_coll!(self, "funcs", funcs, m.funcs.iter().map(|f| (f.id(), format!("{:?}", f.name))).collect(), |id| format!("{:?}", m.funcs.get(id).name));
+        {
+            // iter_local: exactly the live local functions, in creation order
+            let got: Vec<walrus::FunctionId> = m.funcs.iter_local().map(|(id, _)| id).collect();
+            let want: Vec<walrus::FunctionId> =
+                self.funcs.ids.iter().enumerate().filter(|(k, _)| self.funcs.alive[*k] && self.func_local[*k]).map(|(_, i)| *i).collect();
+            if got != want {
+                return fail("iter_is_live_in_creation_order", format!("funcs.iter_local yields {} items, the model has {} live local functions", got.len(), want.len()));
+            }
+        }
+        check_coll!(self, "globals", globals, m.globals.iter().map(|g| (g.id(), format!("{:?}", g.name))).collect(), |id| format!("{:?}", m.globals.get(id).name));
+        check_coll!(self, "memories", memories, m.memories.iter().map(|g| (g.id(), format!("{}", g.initial))).collect(), |id| format!("{}", m.memories.get(id).initial));
+        if m.memories.len() != self.memories.live_ids().len() || m.memories.is_empty() != self.memories.live_ids().is_empty() {
+            return fail("iter_is_live_in_creation_order", format!("memories.len() = {} but the model has {} live", m.memories.len(), self.memories.live_ids().len()));
+        }
+        check_coll!(self, "tables", tables, m.tables.iter().map(|g| (g.id(), format!("{}", g.initial))).collect(), |id| format!("{}", m.tables.get(id).initial));
+        check_coll!(self, "data", data, m.data.iter().map(|g| (g.id(), format!("{:?}", g.name))).collect(), |id| format!("{:?}", m.data.get(id).name));
+        check_coll!(self, "elements", elements, m.elements.iter().map(|g| (g.id(), format!("{:?}", g.name))).collect(), |id| format!("{:?}", m.elements.get(id).name));
+        check_coll!(self, "exports", exports, m.exports.iter().map(|g| (g.id(), g.name.clone())).collect(), |id| m.exports.get(id).name.clone());
+        check_coll!(self, "imports", imports, m.imports.iter().map(|g| (g.id(), format!("{}.{}", g.module, g.name))).collect(), |id| {
+            let i = m.imports.get(id);
+            format!("{}.{}", i.module, i.name)
+        });
+        check_coll!(self, "locals", locals, m.locals.iter().map(|g| (g.id(), format!("{:?}", g.name))).collect(), |id| format!("{:?}", m.locals.get(id).name));
+        {
+            let got: Vec<(walrus::UntypedCustomSectionId, String)> = m.customs.iter().map(|(id, s)| (id, s.name().to_string())).collect();
+            if got.iter().map(|g| g.0).collect::<Vec<_>>() != self.customs.live_ids() || got.iter().map(|g| g.1.clone()).collect::<Vec<_>>() != self.customs.live_fps() {
+                return fail("iter_is_live_in_creation_order", format!("customs: iteration yields {:?}, the model has {:?}", got.iter().map(|g| &g.1).collect::<Vec<_>>(), self.customs.live_fps()));
+            }
+            for (k, id) in self.customs.ids.iter().enumerate() {
+                match (self.customs.alive[k], m.customs.get(*id)) {
+                    (true, Some(s)) if s.name() == self.customs.fp[k] => {}
+                    (false, None) => {}
+                    (alive, got) => {
+                        return fail(
+                            if alive { "live_id_resolves_to_its_item" } else { "dead_id_is_refused" },
+                            format!("customs: id #{} (alive={}) resolves to {:?}, created for {:?}", k, alive, got.map(|s| s.name().to_string()), self.customs.fp[k]),
+                        )
+                    }
+                }
+            }
+        }
+        Ok(())
+    }
+
+    fn model_hash(&self) -> u64 {
+        let mut h = self.types.hash();
+        for x in [
+            self.funcs.hash(),
+            self.globals.hash(),
+            self.memories.hash(),
+            self.tables.hash(),
+            self.data.hash(),
+            self.elements.hash(),
+            self.exports.hash(),
+            self.imports.hash(),
+            self.locals.hash(),
+            self.customs.hash(),
+        ] {
+            h = crate::prng::mix64(h, x);
+        }
+        h
+    }
+}
+
+/// a dead id must be refused: the call panics (or returns None); returning normally is a violation
+macro_rules! must_refuse {
+    ($what:expr, $call:expr, $counters:expr) => {{
+        match refused(|| $call) {
+            Err(()) => {
+                bump($counters, concat!("dead_id_refused:", $what));
+            }
+            Ok(_) => return fail("dead_id_is_refused", format!("{} on a deleted id returned normally", $what)),
+        }
+    }};
+}
+
+fn add_op(md: &mut Mod, coll: CollKind, arg: u32, counters: &mut Vec<(String, u64)>) -> R {
+    let k = md.next();
+    match coll {
+        CollKind::Types => {
+            let sig = arg as usize % SIG_POOL.len();
+            let (p, r) = SIG_POOL[sig];
+            let id = md.m.types.add(p, r);
+            md.note_type(TypeKey { sig, entry: false }, id, counters)?;
+        }
+        CollKind::Funcs => {
+            let sig = (arg / 3) as usize % SIG_POOL.len();
+            let (p, r) = SIG_POOL[sig];
+            let name = format!("fn{}", k);
+            if arg % 3 == 0 {
+                let ty = md.m.types.add(p, r);
+                md.note_type(TypeKey { sig, entry: false }, ty, counters)?;
+                let (f, imp) = md.m.add_import_func("env", &format!("imp{}", k), ty);
+                md.m.funcs.get_mut(f).name = Some(name.clone());
+                if let Err(e) = md.funcs.add(f, format!("{:?}", Some(&name))) {
+                    return fail("id_never_reused", format!("funcs: {}", e));
+                }
+                md.func_local.push(false);
+                if let Err(e) = md.imports.add(imp, format!("env.imp{}", k)) {
+                    return fail("id_never_reused", format!("imports: {}", e));
+                }
+            } else {
+                let mut b = FunctionBuilder::new(&mut md.m.types, p, r);
+                b.name(name.clone());
+                {
+                    let mut body = b.func_body();
+                    for t in r {
+                        match t {
+                            ValType::I32 => {
+                                body.i32_const(0);
+                            }
+                            ValType::I64 => {
+                                body.i64_const(0);
+                            }
+                            ValType::F32 => {
+                                body.f32_const(0.0);
+                            }
+                            _ => {
+                                body.f64_const(0.0);
+                            }
+                        }
+                    }
+                }
+                let args: Vec<walrus::LocalId> = p.iter().map(|t| md.m.locals.add(*t)).collect();
+                for (n, a) in args.iter().enumerate() {
+                    let lname = format!("lo{}_{}", k, n);
+                    md.m.locals.get_mut(*a).name = Some(lname.clone());
+                    if let Err(e) = md.locals.add(*a, format!("{:?}", Some(&lname))) {
+                        return fail("id_never_reused", format!("locals: {}", e));
+                    }
+                }
+                let lf = b.local_func(args);
+                let fty = lf.ty();
+                md.note_type(TypeKey { sig, entry: false }, fty, counters)?;
+                md.note_entry_type(sig, counters)?;
+                let f = md.m.funcs.add_local(lf);
+                if let Err(e) = md.funcs.add(f, format!("{:?}", Some(&name))) {
+                    return fail("id_never_reused", format!("funcs: {}", e));
+                }
+                md.func_local.push(true);
+            }
+        }
+        CollKind::Globals => {
+            let name = format!("gl{}", k);
+            let id = if arg % 4 == 0 {
+                let (g, imp) = md.m.add_import_global("env", &format!("gimp{}", k), ValType::I64, false, false);
+                if let Err(e) = md.imports.add(imp, format!("env.gimp{}", k)) {
+                    return fail("id_never_reused", format!("imports: {}", e));
+                }
+                g
+            } else {
+                md.m.globals.add_local(ValType::I64, arg % 2 == 0, false, ConstExpr::Value(walrus::ir::Value::I64(k as i64)))
+            };
+            md.m.globals.get_mut(id).name = Some(name.clone());
+            if let Err(e) = md.globals.add(id, format!("{:?}", Some(&name))) {
+                return fail("id_never_reused", format!("globals: {}", e));
+            }
+        }
+        CollKind::Memories => {
+            let id = md.m.memories.add_local(false, arg % 3 == 0, k as u64, None, None);
+            if let Err(e) = md.memories.add(id, format!("{}", k)) {
+                return fail("id_never_reused", format!("memories: {}", e));
+            }
+        }
+        CollKind::Tables => {
+            let id = md.m.tables.add_local(false, k as u64, None, if arg % 2 == 0 { RefType::Funcref } else { RefType::Externref });
+            if let Err(e) = md.tables.add(id, format!("{}", k)) {
+                return fail("id_never_reused", format!("tables: {}", e));
+            }
+        }
+        CollKind::Data => {
+            let name = format!("da{}", k);
+            let id = md.m.data.add(walrus::DataKind::Passive, k.to_le_bytes().to_vec());
+            md.m.data.get_mut(id).name = Some(name.clone());
+            if let Err(e) = md.data.add(id, format!("{:?}", Some(&name))) {
+                return fail("id_never_reused", format!("data: {}", e));
+            }
+        }
+        CollKind::Elements => {
+            let name = format!("el{}", k);
+            let id = md.m.elements.add(ElementKind::Passive, ElementItems::Expressions(RefType::Externref, vec![ConstExpr::RefNull(RefType::Externref); (arg % 3) as usize]));
+            md.m.elements.get_mut(id).name = Some(name.clone());
+            if let Err(e) = md.elements.add(id, format!("{:?}", Some(&name))) {
+                return fail("id_never_reused", format!("elements: {}", e));
+            }
+        }
+        CollKind::Exports => {
+            // export some live item (exports may dangle later: nothing is emitted in this check)
+            let name = format!("ex{}", k);
+            let id = if let Some(f) = md.funcs.live_ids().first() {
+                md.m.exports.add(&name, *f)
+            } else if let Some(g) = md.globals.live_ids().first() {
+                md.m.exports.add(&name, *g)
+            } else if let Some(x) = md.memories.live_ids().first() {
+                md.m.exports.add(&name, *x)
+            } else if let Some(x) = md.tables.live_ids().first() {
+                md.m.exports.add(&name, *x)
+            } else {
+                return Ok(());
+            };
+            if let Err(e) = md.exports.add(id, name) {
+                return fail("id_never_reused", format!("exports: {}", e));
+            }
+        }
+        CollKind::Imports => {
+            let (mem, imp) = md.m.add_import_memory("env", &format!("mimp{}", k), false, false, k as u64, None, None);
+            if let Err(e) = md.imports.add(imp, format!("env.mimp{}", k)) {
+                return fail("id_never_reused", format!("imports: {}", e));
+            }
+            if let Err(e) = md.memories.add(mem, format!("{}", k)) {
+                return fail("id_never_reused", format!("memories: {}", e));
+            }
+        }
+        CollKind::Locals => {
+            let name = format!("lo{}", k);
+            let id = md.m.locals.add(if arg % 2 == 0 { ValType::I32 } else { ValType::F64 });
+            md.m.locals.get_mut(id).name = Some(name.clone());
+            if let Err(e) = md.locals.add(id, format!("{:?}", Some(&name))) {
+                return fail("id_never_reused", format!("locals: {}", e));
+            }
+        }
+        CollKind::Customs => {
+            let name = format!("cu{}", k);
+            let id = md.m.customs.add(RawCustomSection { name: name.clone(), data: vec![k as u8] });
+            if let Err(e) = md.customs.add(id.into(), name) {
+                return fail("id_never_reused", format!("customs: {}", e));
+            }
+        }
+    }
+    Ok(())
+}
+
+macro_rules! delete_in {
+    ($md:ident, $track:ident, $nth:expr, $what:expr, $counters:ident, $del:expr) => {{
+        if $md.$track.ids.is_empty() {
+            return Ok(());
+        }
+        let k = $nth as usize % $md.$track.ids.len();
+        let id = $md.$track.ids[k];
+        if $md.$track.alive[k] {
+            ($del)(&mut $md.m, id);
+            $md.$track.alive[k] = false;
+            bump($counters, concat!("deleted:", $what));
+        } else {
+            // injected fault: delete again through a dead id
+            let m = &mut $md.m;
+            must_refuse!(concat!($what, ".delete"), ($del)(m, id), $counters);
+        }
+    }};
+}
+
+fn delete_op(md: &mut Mod, coll: CollKind, nth: u32, counters: &mut Vec<(String, u64)>) -> R {
+    match coll {
+        CollKind::Types => delete_in!(md, types, nth, "types", counters, |m: &mut Module, id| m.types.delete(id)),
+        CollKind::Funcs => delete_in!(md, funcs, nth, "funcs", counters, |m: &mut Module, id| m.funcs.delete(id)),
+        CollKind::Globals => delete_in!(md, globals, nth, "globals", counters, |m: &mut Module, id| m.globals.delete(id)),
+        CollKind::Memories => delete_in!(md, memories, nth, "memories", counters, |m: &mut Module, id| m.memories.delete(id)),
+        CollKind::Tables => delete_in!(md, tables, nth, "tables", counters, |m: &mut Module, id| m.tables.delete(id)),
+        CollKind::Data => delete_in!(md, data, nth, "data", counters, |m: &mut Module, id| m.data.delete(id)),
+        CollKind::Elements => delete_in!(md, elements, nth, "elements", counters, |m: &mut Module, id| m.elements.delete(id)),
+        CollKind::Exports => delete_in!(md, exports, nth, "exports", counters, |m: &mut Module, id| m.exports.delete(id)),
+        CollKind::Imports => delete_in!(md, imports, nth, "imports", counters, |m: &mut Module, id| m.imports.delete(id)),
+        CollKind::Locals => {}
+        CollKind::Customs => {
+            if md.customs.ids.is_empty() {
+                return Ok(());
+            }
+            let k = nth as usize % md.customs.ids.len();
+            let id = md.customs.ids[k];
+            let r = md.m.customs.delete(id);
+            match (md.customs.alive[k], r) {
+                (true, Some(s)) if s.name() == md.customs.fp[k] => {
+                    md.customs.alive[k] = false;
+                    bump(counters, "deleted:customs");
+                }
+                (false, None) => bump(counters, "dead_id_refused:customs.delete"),
+                (alive, got) => {
+                    return fail(
+                        if alive { "live_id_resolves_to_its_item" } else { "dead_id_is_refused" },
+                        format!("customs.delete of id #{} (alive={}) returned {:?}", k, alive, got.map(|s| s.name().to_string())),
+                    )
+                }
+            }
+        }
+    }
+    Ok(())
+}
+
+macro_rules! get_in {
+    ($md:ident, $track:ident, $nth:expr, $what:expr, $counters:ident, $get:expr, $get_mut:expr) => {{
+        if $md.$track.ids.is_empty() {
+            return Ok(());
+        }
+        let k = $nth as usize % $md.$track.ids.len();
+        let id = $md.$track.ids[k];
+        if !$md.$track.alive[k] {
+            let m = &mut $md.m;
+            must_refuse!(concat!($what, ".get"), ($get)(&*m, id), $counters);
+            must_refuse!(concat!($what, ".get_mut"), ($get_mut)(m, id), $counters);
+        }
+    }};
+}
+
+fn get_op(md: &mut Mod, coll: CollKind, nth: u32, counters: &mut Vec<(String, u64)>) -> R {
+    match coll {
+        CollKind::Types => {
+            get_in!(md, types, nth, "types", counters, |m: &Module, id| m.types.get(id).params().len(), |m: &mut Module, id| m.types.get_mut(id).name.is_some());
+            // params()/results()/params_results() go through the same lookup
+            if !md.types.ids.is_empty() {
+                let k = nth as usize % md.types.ids.len();
+                let id = md.types.ids[k];
+                if !md.types.alive[k] {
+                    let m = &md.m;
+                    must_refuse!("types.params", m.types.params(id).len(), counters);
+                    must_refuse!("types.results", m.types.results(id).len(), counters);
+                }
+            }
+        }
+        CollKind::Funcs => get_in!(md, funcs, nth, "funcs", counters, |m: &Module, id| m.funcs.get(id).name.is_some(), |m: &mut Module, id| m.funcs.get_mut(id).name.is_some()),
+        CollKind::Globals => get_in!(md, globals, nth, "globals", counters, |m: &Module, id| m.globals.get(id).mutable, |m: &mut Module, id| m.globals.get_mut(id).mutable),
+        CollKind::Memories => get_in!(md, memories, nth, "memories", counters, |m: &Module, id| m.memories.get(id).initial, |m: &mut Module, id| m.memories.get_mut(id).initial),
+        CollKind::Tables => get_in!(md, tables, nth, "tables", counters, |m: &Module, id| m.tables.get(id).initial, |m: &mut Module, id| m.tables.get_mut(id).initial),
+        CollKind::Data => get_in!(md, data, nth, "data", counters, |m: &Module, id| m.data.get(id).value.len(), |m: &mut Module, id| m.data.get_mut(id).value.len()),
+        CollKind::Elements => get_in!(md, elements, nth, "elements", counters, |m: &Module, id| m.elements.get(id).name.is_some(), |m: &mut Module, id| m.elements.get_mut(id).name.is_some()),
+        CollKind::Exports => get_in!(md, exports, nth, "exports", counters, |m: &Module, id| m.exports.get(id).name.len(), |m: &mut Module, id| m.exports.get_mut(id).name.len()),
+        CollKind::Imports => get_in!(md, imports, nth, "imports", counters, |m: &Module, id| m.imports.get(id).name.len(), |m: &mut Module, id| m.imports.get_mut(id).name.len()),
+        CollKind::Locals | CollKind::Customs => {}
+    }
+    Ok(())
+}
+
+fn find_op(md: &mut Mod, coll: CollKind, arg: u32, counters: &mut Vec<(String, u64)>) -> R {
+    match coll {
+        CollKind::Types => {
+            let sig = arg as usize % SIG_POOL.len();
+            let (p, r) = SIG_POOL[sig];
+            let want = md.live_type_with(&TypeKey { sig, entry: false }).map(|k| md.types.ids[k]);
+            let got = md.m.types.find(p, r);
+            if want != got {
+                return fail("finder_agrees_with_model", format!("types.find({}) = {:?}, the model says {:?}", type_fp(sig, false), got.map(|i| i.index()), want.map(|i| i.index())));
+            }
+            bump(counters, if got.is_some() { "find_hit:types" } else { "find_miss:types" });
+        }
+        CollKind::Funcs => {
+            if md.funcs.fp.is_empty() {
+                return Ok(());
+            }
+            let k = arg as usize % md.funcs.fp.len();
+            // fingerprints are Debug of Option<&String>: Some("fnN")
+            let name = md.funcs.fp[k].trim_start_matches("Some(\"").trim_end_matches("\")").to_string();
+            let want = if md.funcs.alive[k] { Some(md.funcs.ids[k]) } else { None };
+            let got = md.m.funcs.by_name(&name);
+            if want != got {
+                return fail("finder_agrees_with_model", format!("funcs.by_name({:?}) = {:?}, the model says {:?} (alive={})", name, got.map(|i| i.index()), want.map(|i| i.index()), md.funcs.alive[k]));
+            }
+            bump(counters, if got.is_some() { "find_hit:funcs" } else { "find_miss_after_delete:funcs" });
+        }
+        CollKind::Exports => {
+            if md.exports.fp.is_empty() {
+                return Ok(());
+            }
+            let k = arg as usize % md.exports.fp.len();
+            let name = md.exports.fp[k].clone();
+            if arg % 5 == 0 {
+                // remove by name: deletes exactly that live export, or reports an error and changes nothing
+                let r = md.m.exports.remove(&name);
+                if md.exports.alive[k] != r.is_ok() {
+                    return fail("finder_agrees_with_model", format!("exports.remove({:?}) returned ok={} but the model says alive={}", name, r.is_ok(), md.exports.alive[k]));
+                }
+                md.exports.alive[k] = false;
+            } else {
+                let live = md.exports.alive[k];
+                let got = md.m.exports.iter().any(|e| e.name == name);
+                if got != live {
+                    return fail("finder_agrees_with_model", format!("export named {:?}: present={} but the model says alive={}", name, got, live));
+                }
+            }
+        }
+        CollKind::Imports => {
+            if md.imports.fp.is_empty() {
+                return Ok(());
+            }
+            let k = arg as usize % md.imports.fp.len();
+            let (module, name) = md.imports.fp[k].split_once('.').map(|(a, b)| (a.to_string(), b.to_string())).unwrap_or_default();
+            let want = if md.imports.alive[k] { Some(md.imports.ids[k]) } else { None };
+            let got = md.m.imports.find(&module, &name);
+            if want != got {
+                return fail("finder_agrees_with_model", format!("imports.find({:?},{:?}) = {:?}, the model says {:?}", module, name, got.map(|i| i.index()), want.map(|i| i.index())));
+            }
+            bump(counters, if got.is_some() { "find_hit:imports" } else { "find_miss_after_delete:imports" });
+        }
+        CollKind::Customs => {
+            if md.customs.fp.is_empty() {
+                return Ok(());
+            }
+            let k = arg as usize % md.customs.fp.len();
+            let name = md.customs.fp[k].clone();
+            let got = md.m.customs.remove_raw(&name);
+            if md.customs.alive[k] != got.is_some() {
+                return fail("finder_agrees_with_model", format!("customs.remove_raw({:?}) found={} but the model says alive={}", name, got.is_some(), md.customs.alive[k]));
+            }
+            md.customs.alive[k] = false;
+        }
+        _ => {}
+    }
+    Ok(())
+}
+
+/// Execute a history on up to three modules.  Never unwinds.
+pub fn run(ops: &[COp], n_modules: u8, initial_burn: u32) -> CollReport {
+    let mut rep = CollReport::default();
+    for _ in 0..initial_burn {
+        let a = id_arena::Arena::<u8>::new();
+        std::hint::black_box(&a);
+    }
+    let mut mods: Vec<Mod> = (0..n_modules.clamp(1, 3)).map(|_| Mod::new()).collect();
+    for (i, op) in ops.iter().enumerate() {
+        let nm = mods.len();
+        let r: Result<R, ()> = catch_unwind(AssertUnwindSafe(|| -> R {
+            match op {
+                COp::Add { m, coll, arg } => add_op(&mut mods[*m as usize % nm], *coll, *arg, &mut rep.counters),
+                COp::Delete { m, coll, nth } => delete_op(&mut mods[*m as usize % nm], *coll, *nth, &mut rep.counters),
+                COp::Get { m, coll, nth } => get_op(&mut mods[*m as usize % nm], *coll, *nth, &mut rep.counters),
+                COp::Find { m, coll, arg } => find_op(&mut mods[*m as usize % nm], *coll, *arg, &mut rep.counters),
+                COp::Iter { .. } => Ok(()),
+                COp::BuilderNew { m, sig } => {
+                    let md = &mut mods[*m as usize % nm];
+                    let sig = *sig as usize % SIG_POOL.len();
+                    let (p, r) = SIG_POOL[sig];
+                    let b = FunctionBuilder::new(&mut md.m.types, p, r);
+                    let lf = b.local_func(vec![]);
+                    let fty = lf.ty();
+                    md.note_type(TypeKey { sig, entry: false }, fty, &mut rep.counters)?;
+                    md.note_entry_type(sig, &mut rep.counters)
+                }
+                COp::Burn { n } => {
+                    for _ in 0..*n {
+                        let a = id_arena::Arena::<u8>::new();
+                        std::hint::black_box(&a);
+                    }
+                    Ok(())
+                }
+            }
+        }))
+        .map_err(|_| ());
+        let r = match r {
+            Ok(r) => r,
+            Err(()) => fail("live_id_resolves_to_its_item", format!("operation {:?} on live items panicked", op)),
+        };
+        // the invariants, after every step, on every module (a refused operation must have changed nothing)
+        let r = r.and_then(|()| {
+            for (k, md) in mods.iter().enumerate() {
+                match catch_unwind(AssertUnwindSafe(|| md.check_all())) {
+                    Ok(Ok(())) => {}
+                    Ok(Err(mut f)) => {
+                        f.detail = format!("module {}: {}", k, f.detail);
+                        return Err(f);
+                    }
+                    Err(_) => return fail("live_id_resolves_to_its_item", format!("module {}: looking up a live id panicked", k)),
+                }
+            }
+            Ok(())
+        });
+        rep.steps_done = i as u32 + 1;
+        let mut h = 0u64;
+        for md in &mods {
+            h = crate::prng::mix64(h, md.model_hash());
+        }
+        rep.state_hashes.push(h);
+        if let Err(f) = r {
+            rep.failure = Some((i as u32, f.oracle.to_string(), f.detail));
+            break;
+        }
+    }
+    rep
+}
